@@ -43,3 +43,14 @@ func NewLogReader(shardID, replicaID uint64, db raftio.ILogDB) *LogReader {
 func Launch(c config.Config, lr *LogReader, addresses []PeerAddress, initial, newNode bool) Peer {
 	return raft.Launch(c, lr, nil, addresses, initial, newNode)
 }
+
+// TanMultiplexedLogDBFactory is the Tan log store with multiplexed log files.
+func TanMultiplexedLogDBFactory() config.LogDBFactory { return tanMux{} }
+
+type tanMux struct{}
+
+func (tanMux) Create(cfg config.NodeHostConfig, cb config.LogDBCallback,
+	dirs []string, wals []string) (raftio.ILogDB, error) {
+	return tan.CreateLogMultiplexedTan(cfg, cb, dirs, wals)
+}
+func (tanMux) Name() string { return "Tan" }
